@@ -24,7 +24,7 @@ from harness.core import Ctx, VERIF, cbool, clist, cnat, copt, cz, guarded
 
 ID = "C09"
 ANCHORS = ["solvor/flow.py", "solvor/network_simplex.py"]
-IMPORTS = "From SV Require Import C09.Mcf C09.McfSpec C09.AssignSpec."
+IMPORTS = "From SV Require Import C09.Mcf C09.McfSpec C09.AssignSpec C09.NetSimplex."
 BRUTE_LIMIT = 4000
 DEFAULT_MAX_ITER = 1_000_000
 
@@ -691,6 +691,8 @@ def run(ctx: Ctx):
     n_ns = ctx.budget(420, 6000)
     n_as = ctx.budget(150, 1500)
 
+    for fnd in ctx.open_findings():  # none at the time of writing: all C09 findings are fixed, their witnesses are in corpus/C09
+        ctx.notes.append(f"open known finding {fnd.get('id')} has no executable class predicate in this module: not excused")
     corpus = load_corpus()
     mcf_insts = [o for o in corpus if o.get("kind") == "mcf"] + fixed_mcf() + [gen_mcf(ctx.rng, big) for _ in range(n_mcf)]
     ns_insts = [o for o in corpus if o.get("kind") == "ns"] + fixed_ns() + [gen_ns(ctx.rng, big) for _ in range(n_ns)]
@@ -716,7 +718,7 @@ def run(ctx: Ctx):
         ctx.count("mcf_demand", min(c["d"], 6))
         if out:
             ctx.count("mcf_iterations", min(out["iterations"], 8))
-        ctx.count("mcf_shape", inst.get("tag", "fixed").split("/")[0])
+        ctx.count("mcf_shape", "corpus" if inst.get("tag", "").startswith("corpus") else inst.get("tag", "fixed").split("/")[0])
         ctx.count("mcf_oracle", "infeasible" if c["optimum"] is None else "feasible")
         ctx.count("oracle_cross_checked_by_brute_force", c["cross"])
         if c["bad"]:
@@ -734,6 +736,8 @@ def run(ctx: Ctx):
             ns_inst = {"n": c["n"], "arcs": [list(a) for a in c["arcs"]], "supplies": c["supplies"], "max_iter": None, "tag": "from-mcf"}
             r2 = guarded(run_ns_impl, ns_inst, timeout=5)
             ctx.evaluations += 1
+            if len(ns_insts) < n_ns * 2 + 40 and c["arcs"]:
+                ns_insts.append(ns_inst)  # also through the network_simplex model / oracle / certificates
             if r2[0] != "ok":
                 hangs["ns"] += r2[0] == "hang"
                 ctx.violation(f"network_simplex did not return a result on a min_cost_flow instance: {r2}", {"kind": "ns", **ns_inst})
@@ -761,7 +765,7 @@ def run(ctx: Ctx):
         ctx.count("ns_status", st)
         ctx.count("ns_nodes", c["n"])
         ctx.count("ns_arcs", len(c["arcs"]))
-        ctx.count("ns_supply_mode", inst.get("tag", "fixed").split("/")[-1])
+        ctx.count("ns_supply_mode", "corpus" if inst.get("tag", "").startswith("corpus") else inst.get("tag", "fixed").split("/")[-1])
         ctx.count("ns_max_iter", inst.get("max_iter"))
         ctx.count("ns_oracle", "infeasible" if c["optimum"] is None else "feasible")
         ctx.count("oracle_cross_checked_by_brute_force", c["cross"])
@@ -851,7 +855,7 @@ def run(ctx: Ctx):
                               {"kind": kind, **inst, "impl": out, "lemma": f"Cases/C09/{tag}_*.v corr"}, no_input=True)
 
 
-NS_MODEL = False
+NS_MODEL = True
 MAX_HANGS = 3
 
 
